@@ -8,7 +8,19 @@ BASELINE_OFF = ("cd /repo && env -u INFERENCE_TOOLS_VERIF /venv/bin/python -m py
                 "--timeout=900 --continue-on-collection-errors")
 
 # pid -> (technique, level text, level note, design ref)
-CLAIMED = {}
+CLAIMED = {
+    "C04": {
+        "technique": "TLA+ limit state machine + map laws model-checked by TLC; every TLC history/box replayed into the real "
+                     "samplers; observed proposal maps checked by TLC (ObservedFoldLaws); bounded-sampler traces validated by LimitsTrace.tla",
+        "text": "Exhaustive over every call order of set_boundaries/remove/set_non_negative up to length 3 (quick) / 5 (thorough) "
+                "and every box/overshoot of the reflection maps on a lattice at many dyadic scales; every enumerated case is executed "
+                "on the real code and compared with the TLC state. Bounded PCA/HMC/ensemble runs with overshooting proposals are "
+                "trace-validated (every posterior/gradient evaluation and every sample inside the limits up to 4 ulp).",
+        "note": "Trusted: TLC, numpy exactness on dyadic lattices, the ulp projection. Histories longer than 5 calls and non-lattice "
+                "Gibbs boundaries are covered only through the random-bounds traces.",
+        "ref": "DESIGN.md section 3 C04",
+    },
+}
 
 NOT_YET = {}
 
